@@ -11,6 +11,7 @@ import (
 
 	"verif/harness/core"
 	"verif/harness/env"
+	"verif/harness/reply"
 	"verif/harness/sim"
 	"verif/harness/verify"
 )
@@ -53,10 +54,18 @@ func c03CaseWL(r *core.Run, wl string, idx int, rng *rand.Rand) {
 	// in the failing-lookup workload the user lookup of this callback fails: early, late, or after part of the record
 	lookupFault := ""
 	if wl == "callback_failing_user_lookup" {
-		lookupFault = []string{"error_fast_key_slow", "partial_then_error_late", "partial_then_error", "error"}[idx%4]
+		lookupFault = []string{"error_fast_key_slow", "partial_then_error_late", "partial_then_error", "error", "timeout_error", "entity_lookup_error"}[idx%6]
 		kind := sim.FaultError
 		if strings.HasPrefix(lookupFault, "partial") {
 			kind = sim.FaultPartial
+		}
+		if lookupFault == "timeout_error" {
+			kind = sim.FaultTimeout
+		}
+		failingOp := "SetUserinfoWithUserID"
+		if lookupFault == "entity_lookup_error" {
+			// the audience cannot be resolved: no Success either (its Audience could not be the registered entity ID)
+			failingOp = "GetEntityIDByAppID"
 		}
 		if lookupFault == "partial_then_error_late" {
 			e.W.PartialDelay = 25 * time.Millisecond
@@ -69,7 +78,7 @@ func c03CaseWL(r *core.Run, wl string, idx int, rng *rand.Rand) {
 			}
 		}
 		e.W.Plan = func(tag, op string, occ int) string {
-			if op == "SetUserinfoWithUserID" {
+			if op == failingOp {
 				return kind
 			}
 			return ""
@@ -94,8 +103,11 @@ func c03CaseWL(r *core.Run, wl string, idx int, rng *rand.Rand) {
 	}
 	if lookupFault != "" {
 		r.Count("callbacks_with_failing_user_lookup", 1)
-		if call.D.Success() {
-			viol("success_with_incomplete_user_record", "Success response although the lookup of the user's data failed ("+lookupFault+"): NameID and attribute statement cannot be exactly the user's data")
+		// every message of the reply counts: a page may hold more than one form
+		for i, m := range reply.AllMessages(call.Rec) {
+			if m.Success() {
+				viol("success_with_incomplete_user_record", fmt.Sprintf("message %d of the reply is a Success response although a lookup the assertion depends on failed (%s): audience, NameID and attribute statement cannot be exactly the registered data", i+1, lookupFault))
+			}
 		}
 		return
 	}
